@@ -254,3 +254,468 @@ Proof.
   cbn zeta. cbn [mstep]. destruct (nth_error (macts s) a) as [y|]; [|auto].
   destruct (mp y) as [| | |[]| | |[]|]; auto; cbn [mb locked macts]; rewrite mseta_len; auto.
 Qed.
+
+(* ------------------------------------------------------------------ *)
+(* the accepted harness events *)
+Inductive mhcase (h : mhst) : list N -> mhst -> Prop :=
+| MHC_lock w : mhcase h [1; w]%N {| mms := mstep (mms h) MCallLock; mhmap := mhmap h ++ [HCall (length (macts (mms h)))] |}
+| MHC_try w : mhcase h [2; w]%N {| mms := mstep (mms h) MCallTry; mhmap := mhmap h ++ [HCall (length (macts (mms h)))] |}
+| MHC_sect i m x :
+    nth_error (mhmap h) (N.to_nat i) = Some (HCall m) \/ nth_error (mhmap h) (N.to_nat i) = Some (HRel m true) ->
+    nth_error (macts (mms h)) m = Some x ->
+    mhcase h [3; i]%N {| mms := msettle (mstep (mms h) (MSect m)); mhmap := mhmap h |}
+| MHC_cancel i m x :
+    nth_error (mhmap h) (N.to_nat i) = Some (HCall m) -> nth_error (macts (mms h)) m = Some x ->
+    mhcase h [4; i]%N {| mms := mstep (mstep (mms h) (MCancelCtx m)) (MCancelWake m); mhmap := mhmap h |}
+| MHC_rel i m x g :
+    nth_error (mhmap h) (N.to_nat i) = Some (HCall m) -> nth_error (macts (mms h)) m = Some x ->
+    mp x = MHeld g \/ mp x = MTHeld g ->
+    mhcase h [5; i]%N {| mms := mstep (mms h) (MRelease m); mhmap := mhmap h ++ [HRel m (match g with Granted => true | _ => false end)] |}
+| MHC_panic : mhcase h [8]%N {| mms := mms h; mhmap := mhmap h ++ [HPanic] |}.
+
+Opaque mstep msettle.
+Lemma mhstep_cases h e h' o : mhstep h e = Some (h', o) -> mhcase h e h' /\ o = mobs h'.
+Proof.
+  unfold mhstep. intros H.
+  repeat (match type of H with context [match ?t with _ => _ end] => destruct t eqn:?; try discriminate H end).
+  all: injection H as Hs Ho; subst o; subst h'; split; [|reflexivity].
+  all: try (econstructor; eauto; fail).
+  all: match goal with
+       | Hp : mp ?a = MHeld ?g |- _ => eapply (MHC_rel h _ _ a g); eauto
+       | Hp : mp ?a = MTHeld ?g |- _ => eapply (MHC_rel h _ _ a g); eauto
+       end.
+Qed.
+Transparent mstep msettle.
+
+(* ------------------------------------------------------------------ *)
+Definition mwaiters_ok (s : mst) : Prop :=
+  forall a x ch, nth_error (macts s) a = Some x -> mp x = MWait ch -> closed (mb s) ch = false /\ mc x = false.
+
+Definition MHI (h : mhst) : Prop :=
+  (exists es, mms h = mrun es) /\
+  calls (mhmap h) = seq 0 (length (macts (mms h))) /\
+  (forall t x, nth_error (macts (mms h)) t = Some x -> mrelcalled (mp x) = true -> In (HRel t true) (mhmap h)) /\
+  mwaiters_ok (mms h).
+
+Definition mafacts (s' : mst) (relm cancm : option nat) (k : nat) (x x' : mactor) : Prop :=
+  mptr (mp x) (mp x') /\
+  mrel_entered (mp x') = mrel_entered (mp x) || tgt relm k /\
+  mc x' = mc x || tgt cancm k /\
+  (mrelcalled (mp x') = true -> mrelcalled (mp x) = true \/ (tgt relm k = true /\ mrel_entered (mp x) = false)) /\
+  (forall ch, mp x' = MWait ch -> closed (mb s') ch = false /\ mc x' = false).
+
+Definition all_mafacts (s s' : mst) (relm cancm : option nat) : Prop :=
+  forall k x, nth_error (macts s) k = Some x -> exists x', nth_error (macts s') k = Some x' /\ mafacts s' relm cancm k x x'.
+
+Lemma mafacts_same s k x : mwaiters_ok s -> nth_error (macts s) k = Some x -> mafacts s None None k x x.
+Proof.
+  intros Hw G. unfold mafacts, mptr. cbn [tgt]. rewrite !orb_false_r.
+  repeat split; auto; eapply Hw; eauto.
+Qed.
+
+Lemma mcall_afacts s ev nw : mwaiters_ok s ->
+  macts (mstep s ev) = macts s ++ [nw] -> mb (mstep s ev) = mb s ->
+  all_mafacts s (mstep s ev) None None.
+Proof.
+  intros Hw Ha Hb k x G. exists x. split.
+  - rewrite Ha, nth_error_app1; [exact G | eapply nth_error_nth_len; eauto].
+  - destruct (mafacts_same s k x Hw G) as (A1 & A2 & A3 & A4 & A5). unfold mafacts. repeat split; auto; try apply A1.
+    + rewrite Hb. eapply Hw; eauto.
+    + eapply Hw; eauto.
+Qed.
+
+Lemma msect_afacts s m : mwaiters_ok s -> all_mafacts s (msettle (mstep s (MSect m))) None None.
+Proof.
+  intros Hw k x G.
+  destruct (msect_actor s m k x G) as (x1 & G1 & A2 & A4 & A6).
+  destruct (msettle_facts (mstep s (MSect m))) as (T1 & T2 & T3 & TA).
+  destruct (TA k x1 G1) as (x' & G' & B2 & B3 & B4). exists x'. split; [exact G'|].
+  destruct (msect_wake_pcs _ _ _ A4 B3) as (P1 & P5 & P7 & P8).
+  unfold mafacts. cbn [tgt]. rewrite !orb_false_r.
+  split; [exact P1|]. split; [exact P5|]. split; [congruence|]. split; [auto|].
+  intros ch Hp. split; [now apply B4|]. rewrite B2, A2.
+  destruct (A6 ch (P8 ch Hp)) as [Hx|Hx]; [|exact Hx]. eapply Hw; eauto.
+Qed.
+
+Lemma msect_settle_len s m : length (macts (msettle (mstep s (MSect m)))) = length (macts s).
+Proof. destruct (msettle_facts (mstep s (MSect m))) as (T1 & T2 & T3 & TA). rewrite T3. apply msect_len. Qed.
+
+Lemma mcancel_afacts s m : mwaiters_ok s -> all_mafacts s (mstep (mstep s (MCancelCtx m)) (MCancelWake m)) None (Some m).
+Proof.
+  intros Hw k x G.
+  destruct (mcancelctx_actor s m k x G) as (x1 & G1 & A2 & A3 & A4).
+  destruct (mcancelctx_scalars s m) as (S1 & _ & _).
+  destruct (mcancelwake_actor (mstep s (MCancelCtx m)) m k x1 G1) as (x' & G' & B2 & B3 & B4).
+  destruct (mcancelwake_scalars (mstep s (MCancelCtx m)) m) as (T1 & _ & _).
+  exists x'. split; [exact G'|]. rewrite A2 in B3.
+  destruct (mgiveup_pcs _ _ B3) as (P1 & P5 & P7 & P8).
+  unfold mafacts. cbn [tgt]. rewrite !orb_false_r.
+  split; [exact P1|]. split; [exact P5|]. split; [|split].
+  - rewrite B2. destruct (Nat.eqb_spec k m) as [E|E]; [rewrite (A3 E); now rewrite orb_true_r | rewrite (A4 E); now rewrite orb_false_r].
+  - intros Hr. left. congruence.
+  - intros ch Hp. rewrite T1, S1. pose proof (P8 ch Hp) as Hp0.
+    destruct (Nat.eq_dec k m) as [E|E].
+    + exfalso. apply (B4 E (A3 E) ch). exact Hp.
+    + rewrite B2, (A4 E). eapply Hw; eauto.
+Qed.
+
+Lemma mrelease_afacts s m x0 : mwaiters_ok s -> nth_error (macts s) m = Some x0 -> mheld (mp x0) = true ->
+  all_mafacts s (mstep s (MRelease m)) (Some m) None.
+Proof.
+  intros Hw G0 Hh0 k x G.
+  destruct (mrelease_actor s m k x G) as (x' & G' & A2 & A3 & A3n & A4).
+  destruct (mrelease_scalars s m) as (S1 & _ & _).
+  exists x'. split; [exact G'|].
+  destruct (mrelease_pcs _ _ A3) as (P1 & P5 & P6 & P8).
+  unfold mafacts. cbn [tgt]. rewrite !orb_false_r.
+  split; [exact P1|]. split; [|split; [exact A2|split]].
+  - destruct (Nat.eqb_spec k m) as [E|E].
+    + subst k. assert (x = x0) by congruence. subst x0. rewrite (A4 eq_refl Hh0). now rewrite orb_true_r.
+    + rewrite orb_false_r. now rewrite (A3n E).
+  - intros Hr. destruct (Nat.eqb_spec k m) as [E|E]; [|left; rewrite <- (A3n E); exact Hr].
+    destruct P6 as [P6|[P6 _]]; [left; congruence | right; auto].
+  - intros ch Hp. rewrite S1, A2. eapply Hw; eauto.
+Qed.
+
+Lemma mafacts_waiters s s' R C : length (macts s') = length (macts s) -> all_mafacts s s' R C -> mwaiters_ok s'.
+Proof.
+  intros Hl HA a x' ch G' Hp.
+  destruct (nth_error_len_some (macts s) a) as (x & G); [rewrite <- Hl; eapply nth_error_nth_len; eauto|].
+  destruct (HA a x G) as (x'' & G'' & (_ & _ & _ & _ & H6)). assert (x'' = x') by congruence. subst x''. auto.
+Qed.
+
+Lemma mrun_snoc es e : mrun (es ++ [e]) = mstep (mrun es) e.
+Proof. unfold mrun. now rewrite fold_left_app. Qed.
+Lemma mrun_app es es' : mrun (es ++ es') = fold_left mstep es' (mrun es).
+Proof. unfold mrun. now rewrite fold_left_app. Qed.
+
+Lemma mhcase_HI h e h' : MHI h -> mhcase h e h' -> MHI h'.
+Proof.
+  intros ((es & Es) & Hcalls & Hrel & Hw) Hc. destruct Hc as [w|w|i m x Hi Gx|i m x Hi Gx|i m x g Hi Gx Hg|]; unfold MHI; cbn [mms mhmap].
+  - assert (Ea : macts (mstep (mms h) MCallLock) = macts (mms h) ++ [{| mp := MStart; mc := false |}]) by reflexivity.
+    split; [exists (es ++ [MCallLock]); now rewrite mrun_snoc, Es|].
+    split; [rewrite calls_app, Hcalls, Ea, app_length; cbn [calls length]; now rewrite Nat.add_1_r, seq_S|].
+    split.
+    + intros t y G Hr. rewrite Ea in G. apply nth_error_app_inv in G as [G| ->]; [|discriminate]. apply in_or_app. left. eauto.
+    + intros a y ch G Hp. rewrite Ea in G. apply nth_error_app_inv in G as [G| ->]; [|discriminate]. eapply Hw; eauto.
+  - assert (Ea : macts (mstep (mms h) MCallTry) = macts (mms h) ++ [{| mp := MTStart; mc := false |}]) by reflexivity.
+    split; [exists (es ++ [MCallTry]); now rewrite mrun_snoc, Es|].
+    split; [rewrite calls_app, Hcalls, Ea, app_length; cbn [calls length]; now rewrite Nat.add_1_r, seq_S|].
+    split.
+    + intros t y G Hr. rewrite Ea in G. apply nth_error_app_inv in G as [G| ->]; [|discriminate]. apply in_or_app. left. eauto.
+    + intros a y ch G Hp. rewrite Ea in G. apply nth_error_app_inv in G as [G| ->]; [|discriminate]. eapply Hw; eauto.
+  - pose proof (msect_afacts (mms h) m Hw) as HA. pose proof (msect_settle_len (mms h) m) as Hl.
+    split; [exists (es ++ MSect m :: map MWake (seq 0 (length (macts (mstep (mms h) (MSect m)))))); rewrite mrun_app, <- Es; cbn [fold_left]; apply msettle_run|].
+    split; [now rewrite Hl|]. split; [|eapply mafacts_waiters; eauto].
+    intros t y' G' Hr.
+    destruct (nth_error_len_some (macts (mms h)) t) as (y & G); [rewrite <- Hl; eapply nth_error_nth_len; eauto|].
+    destruct (HA t y G) as (y'' & G'' & (_ & _ & _ & H5 & _)). assert (y'' = y') by congruence. subst y''.
+    destruct (H5 Hr) as [H|[H _]]; [eauto | discriminate].
+  - pose proof (mcancel_afacts (mms h) m Hw) as HA.
+    assert (Hl : length (macts (mstep (mstep (mms h) (MCancelCtx m)) (MCancelWake m))) = length (macts (mms h))).
+    { destruct (mcancelwake_scalars (mstep (mms h) (MCancelCtx m)) m) as (_ & _ & ->).
+      now destruct (mcancelctx_scalars (mms h) m) as (_ & _ & ->). }
+    split; [exists (es ++ [MCancelCtx m; MCancelWake m]); now rewrite mrun_app, <- Es|].
+    split; [now rewrite Hl|]. split; [|eapply mafacts_waiters; eauto].
+    intros t y' G' Hr.
+    destruct (nth_error_len_some (macts (mms h)) t) as (y & G); [rewrite <- Hl; eapply nth_error_nth_len; eauto|].
+    destruct (HA t y G) as (y'' & G'' & (_ & _ & _ & H5 & _)). assert (y'' = y') by congruence. subst y''.
+    destruct (H5 Hr) as [H|[H _]]; [eauto | discriminate].
+  - assert (Hh : mheld (mp x) = true) by (destruct Hg as [-> | ->]; reflexivity).
+    pose proof (mrelease_afacts (mms h) m x Hw Gx Hh) as HA.
+    destruct (mrelease_scalars (mms h) m) as (_ & _ & Hl).
+    split; [exists (es ++ [MRelease m]); now rewrite mrun_snoc, Es|].
+    split; [rewrite calls_app, Hl; cbn [calls]; now rewrite app_nil_r|]. split; [|eapply mafacts_waiters; eauto].
+    intros t y' G' Hr. apply in_or_app.
+    destruct (nth_error_len_some (macts (mms h)) t) as (y & G); [rewrite <- Hl; eapply nth_error_nth_len; eauto|].
+    destruct (HA t y G) as (y'' & G'' & (_ & _ & _ & H5 & _)). assert (y'' = y') by congruence. subst y''.
+    destruct (H5 Hr) as [H|[Ht Hre]]; [left; eauto|]. right. cbn [tgt] in Ht. apply Nat.eqb_eq in Ht. subst t.
+    assert (y = x) by congruence. subst y.
+    destruct Hg as [Hg|Hg]; rewrite Hg in Hre; destruct g; try discriminate; now left.
+  - split; [eauto|]. split; [rewrite calls_app; cbn [calls]; now rewrite app_nil_r|].
+    split; [|exact Hw]. intros t y G Hr. apply in_or_app. left. eauto.
+Qed.
+
+(* ------------------------------------------------------------------ *)
+Lemma mcode_nocall s ha : (forall k, ha <> HCall k) -> mcode s ha <> 3%N /\ mcode s ha <> 2%N.
+Proof.
+  destruct ha as [k|t f|]; intros Hn; [exfalso; eapply Hn; eauto| |cbn; split; discriminate].
+  cbn [mcode]. destruct f; [|split; discriminate]. destruct (nth_error (macts s) t) as [x|]; [|split; discriminate].
+  destruct (mp x) as [| | |[]| | |[]|]; split; discriminate.
+Qed.
+
+Lemma mkind_ne0 x : mkind x <> 0%N.
+Proof. unfold mkind. destruct (m_is_lock_pc (mp x)); discriminate. Qed.
+
+Lemma mq1_existing s s' relm cancm (nw : Prop) m m' ha :
+  all_mafacts s s' relm cancm ->
+  (forall k, ha = HCall k -> k < length (macts s)) ->
+  Rd m (mdesc_of s ha) ->
+  mk m' = mk m -> mreg m' = mreg m -> mgranted m' = mgranted m ->
+  mrel m' = mrel m || tgt_h relm ha -> mcanc m' = mcanc m || tgt_h cancm ha ->
+  Q1 nw m' (mdesc_of s' ha).
+Proof.
+  intros HA Hlt (R1 & R2 & R3 & R4 & R5) E1 E2 E3 E4 E5.
+  destruct ha as [k|t f|].
+  - destruct (nth_error_len_some (macts s) k (Hlt k eq_refl)) as (x & G).
+    destruct (HA k x G) as (x' & G' & ((T2 & T3) & F2 & F3 & _)).
+    cbn [mdesc_of tgt_h] in *. rewrite G in *. rewrite G'. cbn [mdesc_x dk dc drel dcanc dw] in *.
+    assert (Ek : mkind x' = mkind x) by (unfold mkind; now rewrite T2).
+    unfold Q1. cbn [mdesc_x dk dc drel dcanc dw].
+    split; [congruence|]. split; [congruence|]. split; [congruence|].
+    split; [reflexivity|]. split; [reflexivity|]. split.
+    + intros Hg. rewrite E3, R5 in Hg. apply N.eqb_eq in Hg. apply mcode3_held. apply T3. now apply mcode3_held.
+    + intros _ Hk. exfalso. exact (mkind_ne0 _ Hk).
+  - cbn [mdesc_of tgt_h] in *. rewrite !orb_false_r in *. unfold Q1. cbn [dk dc drel dcanc dw] in *.
+    destruct (mcode_nocall s (HRel t f)) as [N3 _]; [intros k; discriminate|].
+    repeat split; try congruence; intros; try discriminate.
+    rewrite E3, R5 in H. apply N.eqb_eq in H. contradiction.
+  - cbn [mdesc_of tgt_h] in *. rewrite !orb_false_r in *. unfold Q1. cbn [dk dc drel dcanc dw] in *.
+    repeat split; try congruence; intros; try discriminate.
+    rewrite E3, R5 in H. discriminate H.
+Qed.
+
+Lemma mq1_list s s' relm cancm hm ml ml' (nw : Prop) :
+  all_mafacts s s' relm cancm ->
+  (forall k, In (HCall k) hm -> k < length (macts s)) ->
+  Forall2 Rd ml (map (mdesc_of s) hm) ->
+  length ml' = length ml ->
+  (forall j m m' ha, nth_error ml j = Some m -> nth_error ml' j = Some m' -> nth_error hm j = Some ha ->
+     mk m' = mk m /\ mreg m' = mreg m /\ mgranted m' = mgranted m /\
+     mrel m' = mrel m || tgt_h relm ha /\ mcanc m' = mcanc m || tgt_h cancm ha) ->
+  Forall2 (Q1 nw) ml' (map (mdesc_of s') hm).
+Proof.
+  intros HA Hlt HF Hl Hupd. pose proof (Forall2_len _ _ _ HF) as Hl2. rewrite map_length in Hl2.
+  apply Forall2_nth_intro; [rewrite map_length; congruence|].
+  intros j m' d' G1 G2. rewrite nth_error_map in G2.
+  destruct (nth_error hm j) as [ha|] eqn:Gh; [|discriminate]. cbn [option_map] in G2. inversion G2; subst d'.
+  destruct (nth_error_len_some ml j) as (m & Gm); [rewrite <- Hl; eapply nth_error_nth_len; eauto|].
+  destruct (Forall2_nth_l _ _ _ HF j m Gm) as (d & Gd & HR). rewrite nth_error_map, Gh in Gd. cbn [option_map] in Gd. inversion Gd; subst d.
+  destruct (Hupd j m m' ha Gm G1 Gh) as (E1 & E2 & E3 & E4 & E5).
+  eapply mq1_existing; eauto. intros k ->. apply Hlt. eapply nth_error_In; eauto.
+Qed.
+
+Lemma mq1_list_upd s s' relm cancm hm ml i f (nw : Prop) :
+  all_mafacts s s' relm cancm ->
+  (forall k, In (HCall k) hm -> k < length (macts s)) ->
+  Forall2 Rd ml (map (mdesc_of s) hm) ->
+  (forall m, mk (f m) = mk m /\ mreg (f m) = mreg m /\ mgranted (f m) = mgranted m) ->
+  (forall j ha m, nth_error hm j = Some ha -> nth_error ml j = Some m ->
+     mrel (if Nat.eqb j i then f m else m) = mrel m || tgt_h relm ha /\
+     mcanc (if Nat.eqb j i then f m else m) = mcanc m || tgt_h cancm ha) ->
+  Forall2 (Q1 nw) (upd ml i f) (map (mdesc_of s') hm).
+Proof.
+  intros HA Hlt HF Hf Hrc. eapply mq1_list; eauto; [apply upd_len|].
+  intros j m m' ha Gm Gm' Gh. rewrite nth_error_upd, Gm in Gm'. destruct (Hrc j ha m Gh Gm) as [Hr Hc].
+  destruct (Nat.eqb j i); cbn [option_map] in Gm'; inversion Gm'; subst m'.
+  - destruct (Hf m) as (F1 & F2 & F3). auto.
+  - auto.
+Qed.
+
+Lemma mq1_list_id s s' hm ml (nw : Prop) :
+  all_mafacts s s' None None ->
+  (forall k, In (HCall k) hm -> k < length (macts s)) ->
+  Forall2 Rd ml (map (mdesc_of s) hm) ->
+  Forall2 (Q1 nw) ml (map (mdesc_of s') hm).
+Proof.
+  intros HA Hlt HF. eapply mq1_list; eauto.
+  intros j m m' ha Gm Gm' Gh. assert (m' = m) by congruence. subst m'.
+  destruct ha; cbn [tgt_h tgt]; rewrite !orb_false_r; auto.
+Qed.
+
+(* ------------------------------------------------------------------ *)
+Lemma mhW_api x : h_holdsW (mdesc_x x) = mapi x.
+Proof. destruct x as [p c]. destruct p as [| | |[]| | |[]|]; reflexivity. Qed.
+
+Lemma mdcount_calls (hf : desc -> bool) (P : mactor -> bool) s hm :
+  (forall x, hf (mdesc_x x) = P x) -> (forall d, dk d = 4%N -> hf d = false) ->
+  calls hm = seq 0 (length (macts s)) ->
+  count_b (map hf (map (mdesc_of s) hm)) = cnt P (macts s).
+Proof.
+  intros H1 H2 Hc. rewrite map_map.
+  rewrite (count_calls (fun ha => hf (mdesc_of s ha)) (fun k => match nth_error (macts s) k with Some x => P x | None => false end)).
+  - rewrite Hc. apply count_seq.
+  - intros k. cbn [mdesc_of]. destruct (nth_error (macts s) k); [apply H1 | now apply H2].
+  - intros t f. now apply H2.
+  - now apply H2.
+Qed.
+
+Lemma mhi_call h k x : MHI h -> nth_error (macts (mms h)) k = Some x -> In (HCall k) (mhmap h).
+Proof.
+  intros (_ & Hc & _) G. apply In_calls. rewrite Hc. apply in_seq. apply nth_error_nth_len in G. lia.
+Qed.
+
+Lemma mhi_call_lt h k : MHI h -> In (HCall k) (mhmap h) -> k < length (macts (mms h)).
+Proof. intros (_ & Hc & _) Hin. apply In_calls in Hin. rewrite Hc in Hin. apply in_seq in Hin. lia. Qed.
+
+Lemma mhi_quiescent h : MHI h -> dquiet (map (mdesc_of (mms h)) (mhmap h)) = true -> mquiescent (mms h) = true.
+Proof.
+  intros HH Hq. pose proof HH as (_ & _ & Hrel & Hw). unfold dquiet in Hq. apply negb_true_iff in Hq.
+  assert (Hno : forall ha, In ha (mhmap h) -> mcode (mms h) ha <> 1%N).
+  { intros ha Hin E. rewrite <- not_true_iff_false in Hq. apply Hq. apply existsb_exists. exists 1%N. split; [|reflexivity].
+    rewrite <- E, <- mdesc_code. apply in_map. now apply in_map. }
+  unfold mquiescent. apply forallb_forall. intros x Hin. destruct (In_nth_error _ _ Hin) as (k & G).
+  pose proof (Hno _ (mhi_call h k x HH G)) as Hc. cbn [mcode] in Hc. rewrite G in Hc.
+  assert (Hr : mrelcalled (mp x) = false).
+  { destruct (mrelcalled (mp x)) eqn:Er; [|reflexivity]. exfalso. pose proof (Hno _ (Hrel k x G Er)) as Hc2. cbn [mcode] in Hc2. rewrite G in Hc2.
+    destruct (mp x) as [| | |[]| | |[]|]; try discriminate; now apply Hc2. }
+  unfold mat_gate. destruct (mp x) as [|ch| |[]| | |[]|] eqn:Ep; cbn [mcode_pc mrelcalled negb andb] in *; try reflexivity; try (exfalso; now apply Hc); try discriminate.
+  destruct (Hw k x ch G Ep) as [-> ->]. reflexivity.
+Qed.
+
+Lemma count_b_zero (l : list bool) : (forall x, In x l -> x = false) -> count_b l = 0.
+Proof.
+  unfold count_b. induction l as [|h t IH]; intros H; [reflexivity|]. cbn [filter].
+  rewrite (H h (or_introl eq_refl)). apply IH. intros x Hx. apply H. now right.
+Qed.
+
+Lemma mdesc_kind s ha : dk (mdesc_of s ha) <> 0%N.
+Proof.
+  destruct ha as [k|t f|]; cbn [mdesc_of dk]; try discriminate.
+  destruct (nth_error (macts s) k) as [x|]; cbn [mdesc_x mddflt dk]; [apply mkind_ne0 | discriminate].
+Qed.
+
+Lemma mhi_clauses h : MHI h -> clauses_ok (map (mdesc_of (mms h)) (mhmap h)).
+Proof.
+  intros HH. pose proof HH as ((es & Es) & Hcalls & Hrel & Hw).
+  set (ds := map (mdesc_of (mms h)) (mhmap h)).
+  assert (EW : dholdsW ds = cnt mapi (macts (mms h))).
+  { unfold dholdsW, ds. apply mdcount_calls; [apply mhW_api | | exact Hcalls]. intros d Hd. unfold h_holdsW, d_isw. now rewrite Hd. }
+  assert (ER : dholdsR ds = 0).
+  { unfold dholdsR. apply count_b_zero. intros x Hin. apply in_map_iff in Hin as (d & <- & Hin).
+    unfold ds in Hin. apply in_map_iff in Hin as (ha & <- & _). unfold h_holdsR, d_isr.
+    destruct ha as [k|t f|]; cbn [mdesc_of dk]; try reflexivity.
+    destruct (nth_error (macts (mms h)) k) as [x|]; [|reflexivity]. cbn [mdesc_x dk]. unfold mkind. destruct (m_is_lock_pc (mp x)); reflexivity. }
+  pose proof (mutex_exclusion es) as X1. rewrite <- Es in X1.
+  unfold clauses_ok. fold ds. rewrite EW, ER.
+  split; [exact X1|]. split; [reflexivity|]. split; [|split].
+  - intros _ Hb. exfalso. apply existsb_exists in Hb as (d & Hin & Hd). unfold ds in Hin. apply in_map_iff in Hin as (ha & <- & _).
+    unfold h_blockedR in Hd. apply andb_true_iff in Hd as [Hk _]. apply N.eqb_eq in Hk. exact (mdesc_kind _ _ Hk).
+  - intros Hq Hb. apply (mhi_quiescent h HH) in Hq.
+    apply existsb_exists in Hb as (d & Hin & Hd). unfold ds in Hin. apply in_map_iff in Hin as (ha & <- & Hin).
+    unfold h_blockedW in Hd. apply andb_true_iff in Hd as [Hk Hc]. apply N.eqb_eq in Hk. apply N.eqb_eq in Hc.
+    destruct ha as [k|t f|]; cbn [mdesc_of dk] in Hk; try discriminate.
+    cbn [mdesc_of] in Hc. destruct (nth_error (macts (mms h)) k) as [x|] eqn:G; [|discriminate].
+    cbn [mdesc_x dc] in Hc. destruct (mcode2_wait _ Hc) as (ch & Hp).
+    rewrite Es in Hq, G.
+    destruct (mutex_quiescent_blocked_has_holder es k x ch Hq G Hp) as (k' & y & G' & Hy). rewrite <- Es in G'.
+    pose proof (nth_error_cnt_pos mapi _ _ _ G' Hy). lia.
+  - apply existsb_false_all. intros d Hin. unfold ds in Hin. apply in_map_iff in Hin as (ha & <- & Hin).
+    unfold h_canc. destruct ha as [k|t f|]; cbn [mdesc_of dcanc]; try reflexivity.
+    destruct (nth_error (macts (mms h)) k) as [x|] eqn:G; [|reflexivity]. cbn [mdesc_x dcanc dc].
+    destruct (N.eqb_spec (mcode_pc (mp x)) 2) as [E|E]; [|apply andb_false_r].
+    destruct (mcode2_wait _ E) as (ch & Hp). destruct (Hw k x ch G Hp) as [_ ->]. reflexivity.
+Qed.
+
+(* ------------------------------------------------------------------ *)
+Definition MR (ml : list mact) (h : mhst) : Prop := MHI h /\ Forall2 Rd ml (map (mdesc_of (mms h)) (mhmap h)).
+
+(* the event as [mon_mutex] hands it to [mon] *)
+Definition mtr_ev (e : list N) : list N := match e with [1; _] => [1; 1] | [2; _] => [2; 1] | _ => e end%N.
+Lemma mon_mutex_eq ml e o : mon_mutex ml e o = mon ml (mtr_ev e) o.
+Proof. reflexivity. Qed.
+
+Lemma mhcase_q1 ml h e h' (nw : Prop) : MR ml h -> mhcase h e h' ->
+  Forall2 (Q1 nw) (mon_ev ml (mtr_ev e)) (map (mdesc_of (mms h')) (mhmap h')).
+Proof.
+  intros [HH HF] Hc. pose proof HH as (_ & Hcalls & _ & Hw).
+  assert (Hlt : forall k, In (HCall k) (mhmap h) -> k < length (macts (mms h))) by (intros k; apply mhi_call_lt; exact HH).
+  assert (Hnd : NoDup (calls (mhmap h))) by (rewrite Hcalls; apply seq_NoDup).
+  destruct Hc as [w|w|i m x Hi Gx|i m x Hi Gx|i m x g Hi Gx Hg|]; cbn [mms mhmap mtr_ev] in *.
+  - rewrite mon_ev_lock, map_app. cbn [map]. apply Forall2_snoc.
+    + eapply mq1_list_id; eauto. eapply mcall_afacts; eauto; reflexivity.
+    + apply q1_new; cbn [mdesc_of mstep macts];
+        rewrite nth_error_app2, Nat.sub_diag by lia; cbn [nth_error mdesc_x dk dc drel dcanc]; try reflexivity; try discriminate.
+  - rewrite mon_ev_try, map_app. cbn [map]. apply Forall2_snoc.
+    + eapply mq1_list_id; eauto. eapply mcall_afacts; eauto; reflexivity.
+    + apply q1_new; cbn [mdesc_of mstep macts];
+        rewrite nth_error_app2, Nat.sub_diag by lia; cbn [nth_error mdesc_x dk dc drel dcanc]; try reflexivity; try discriminate.
+  - destruct (mon_ev_sect ml i) as (regs & ->).
+    eapply (mq1_list_upd (mms h) _ None None); [apply msect_afacts; exact Hw | exact Hlt | exact HF | intros m0; destruct (m_first_fields regs m0) as (F1 & F2 & F3 & _); auto|].
+    intros j ha m0 _ _. destruct (m_first_fields regs m0) as (_ & _ & _ & F4 & F5).
+    destruct ha; cbn [tgt_h tgt]; rewrite !orb_false_r; destruct (Nat.eqb j (N.to_nat i)); auto.
+  - rewrite mon_ev_cancel.
+    eapply (mq1_list_upd (mms h) _ None (Some m)); [apply mcancel_afacts; exact Hw | exact Hlt | exact HF | intros m0; cbn; auto|].
+    intros j ha m0 Gh _. rewrite (tgt_other _ _ _ _ _ Hnd Hi Gh).
+    split; [destruct ha; cbn [tgt_h tgt]; rewrite orb_false_r; destruct (Nat.eqb j (N.to_nat i)); reflexivity|].
+    destruct (Nat.eqb j (N.to_nat i)); cbn [m_canc mcanc]; [now rewrite orb_true_r | now rewrite orb_false_r].
+  - rewrite mon_ev_rel, map_app. cbn [map]. apply Forall2_snoc.
+    + assert (Hh : mheld (mp x) = true) by (destruct Hg as [-> | ->]; reflexivity).
+      eapply (mq1_list_upd (mms h) _ (Some m) None); [eapply mrelease_afacts; eauto | exact Hlt | exact HF | intros m0; cbn; auto|].
+      intros j ha m0 Gh _. rewrite (tgt_other _ _ _ _ _ Hnd Hi Gh).
+      split; [|destruct ha; cbn [tgt_h tgt]; rewrite orb_false_r; destruct (Nat.eqb j (N.to_nat i)); reflexivity].
+      destruct (Nat.eqb j (N.to_nat i)); cbn [m_rel mrel]; [now rewrite orb_true_r | now rewrite orb_false_r].
+    + destruct (mcode_nocall (mstep (mms h) (MRelease m)) (HRel m (match g with Granted => true | _ => false end))) as [N3 N2]; [intros k; discriminate|].
+      apply q1_new; cbn [mdesc_of dk dc drel dcanc]; auto.
+  - rewrite mon_ev_panic, map_app. cbn [map]. apply Forall2_snoc.
+    + eapply mq1_list_id; eauto. intros k x G. exists x. split; [exact G | now apply mafacts_same].
+    + apply q1_new; cbn [mdesc_of dk dc drel dcanc mcode]; auto; discriminate.
+Qed.
+
+Lemma mmon_step ml h e h' o : MR ml h -> mhstep h e = Some (h', o) -> exists ml', mon_mutex ml e o = (ml', []) /\ MR ml' h'.
+Proof.
+  intros HR Hs. destruct (mhstep_cases _ _ _ _ Hs) as [Hc ->].
+  pose proof (mhcase_HI _ _ _ (proj1 HR) Hc) as HH'.
+  rewrite mon_mutex_eq, mon_split, mobs_desc.
+  destruct (mon_post_clean (mon_ev ml (mtr_ev e)) (map (mdesc_of (mms h')) (mhmap h'))) as (ml' & Em & HF').
+  - now apply (mhcase_q1 ml h e h').
+  - now apply mhi_clauses.
+  - exists ml'. split; [exact Em|]. split; assumption.
+Qed.
+
+Lemma MHI_init : MHI mhinit.
+Proof.
+  split; [exists []; reflexivity|]. split; [reflexivity|].
+  split; [intros t x G; destruct t; discriminate | intros a x ch G; destruct a; discriminate].
+Qed.
+
+Lemma MR_init : MR [] mhinit.
+Proof. split; [apply MHI_init | constructor]. Qed.
+
+Lemma MR_len ml h : MR ml h -> length ml = length (mhmap h).
+Proof. intros [_ HF]. apply Forall2_len in HF. now rewrite map_length in HF. Qed.
+
+Lemma mpanic_obs h h' o : mhstep h [8%N] = Some (h', o) -> last o 0%N = 9%N.
+Proof.
+  intros Hs. destruct (mhstep_cases _ _ _ _ Hs) as [Hc ->]. inversion Hc; subst.
+  unfold mobs. cbn [mhmap mms]. rewrite map_app. cbn [map]. now rewrite last_snoc.
+Qed.
+
+Lemma mrel_obs h i h' o : mhstep h [5%N; i] = Some (h', o) -> last o 0%N <> 9%N.
+Proof.
+  intros Hs. destruct (mhstep_cases _ _ _ _ Hs) as [Hc ->]. inversion Hc; subst.
+  unfold mobs. cbn [mhmap mms]. rewrite map_app. cbn [map]. rewrite last_snoc. cbn [mcode].
+  match goal with |- (if ?c then _ else _) <> _ => destruct c end; [|discriminate].
+  destruct (nth_error (macts (mstep (mms h) (MRelease m))) m) as [y|]; [|discriminate].
+  destruct (mp y) as [| | |[]| | |[]|]; discriminate.
+Qed.
+
+(* ------------------------------------------------------------------ *)
+(* THE THEOREMS, about exactly what run_check_mutex uses *)
+Definition mu_step := lstep mhstep (fun h => length (mhmap h)).
+Definition mu_mon := lmon mon_mutex (@length mact).
+
+Theorem mutex_model_satisfies_monitors evs :
+  monitor mu_mon 0 ([], lockers0) [] evs (run_obs mu_step (mhinit, lockers0) evs) = [].
+Proof.
+  apply (layer_clean mhst (list mact) mhstep mon_mutex (fun h => length (mhmap h)) (@length mact) MR MR_len mmon_step mpanic_obs mrel_obs).
+  split; [apply MR_init | reflexivity].
+Qed.
+
+Theorem mutex_model_satisfies_monitors_core evs : monitor mon_mutex 0 [] [] evs (run_obs mhstep mhinit evs) = [].
+Proof.
+  assert (H : forall evs h ml i rep, MR ml h -> monitor mon_mutex i ml rep evs (run_obs mhstep h evs) = []).
+  { clear. induction evs as [|e evs IH]; intros h ml i rep HR; [reflexivity|].
+    cbn [run_obs]. destruct (mhstep h e) as [[h' o]|] eqn:E; [|reflexivity].
+    destruct (mmon_step _ _ _ _ _ HR E) as (ml' & Em & HR'). cbn [monitor]. rewrite Em. cbn [filter map app]. now apply IH. }
+  apply H. apply MR_init.
+Qed.
+
+Theorem mutex_model_run_check_clean evs :
+  length (run_obs mu_step (mhinit, lockers0) evs) = length evs ->
+  forall cfg, run_check_mutex cfg evs (run_obs mu_step (mhinit, lockers0) evs) = [].
+Proof.
+  intros Hl cfg. unfold run_check_mutex, run_check. pose proof (mutex_model_satisfies_monitors evs) as HM.
+  unfold mu_step, mu_mon in *.
+  rewrite (replay_own mhst mhstep (fun h => length (mhmap h)) evs (mhinit, lockers0) 0 Hl), HM. reflexivity.
+Qed.
